@@ -243,6 +243,7 @@ func generate() {
 	out.WriteString("/-- statement tree of a Go function body made of simple statements, `if`/`else` and `return`:\n`seq s k` is the assignment / declaration `s` (source text) followed by `k`; a statement after an `if` is\ncopied into both branches. -/\ninductive SExp where\n  | seq (s : String) (k : SExp)\n  | ite (c : String) (t e : SExp)\n  | ret (e : String)\n  | fall\n  | other\n  deriving DecidableEq, Repr\n\n")
 	funcSExp("stmCloserThan", "types/addr-maybe-id.go", "AddrMaybeId", "CloserThan")
 	c14Facts() // C14: sender/Close event lists, control-flow graphs of the traversal owners (owners.go)
+	lockFacts() // C01 (deadlock part): mutex acquisitions, calls and held sets of every function (locks.go)
 }
 
 func defFlow(name, rel, recv, fn string) {
